@@ -4,6 +4,7 @@
    which `Lemmas.Store.good_run` proves of every reachable state)
 -/
 import GoHeader.Lemmas.Store
+import GoHeader.Store.DelCache
 namespace GoHeader.C08
 open GoHeader GoHeader.Store
 
@@ -121,5 +122,112 @@ example : let s := St.run 64 [.append [1, 2, 3, 4, 5], .sync]
           (s.deleteRange 1 6).2 = .ok ∧ (s.deleteRange 1 6).1.head = none ∧ (s.deleteRange 1 6).1.pending = [] ∧
           (s.deleteRange 2 4).2 = .err := by
   decide
+
+end GoHeader.C08
+
+/-! ### deletion through a write batch against readers that fill the caches (all interleavings) -/
+namespace GoHeader.C08
+open GoHeader.Store.DelCache
+
+/-- what the deleter has claimed so far is exactly `batch ++ todo = range` (up to order), and once committed the
+    datastore has none of the batch -/
+structure Inv (range : List Nat) (s : St) : Prop where
+  cover : ∀ h, h ∈ range ↔ (h ∈ s.batch ∨ h ∈ s.todo)
+  committed : 1 ≤ s.phase → s.todo = [] ∧ ∀ h ∈ s.batch, h ∉ s.ds
+  done : s.phase = 2 → ∀ h ∈ s.batch, h ∉ s.cache
+  phases : s.phase ≤ 2
+
+theorem inv_init (stored range : List Nat) : Inv range (init stored range) where
+  cover := by intro h; simp [init]
+  committed := by intro h; simp [init] at h
+  done := by intro h; simp [init] at h
+  phases := by simp [init]
+
+theorem inv_stepRead (range : List Nat) (s : St) (x : Nat) (h : Inv range s) : Inv range (stepRead s x) := by
+  obtain ⟨cover, committed, done, phases⟩ := h
+  unfold stepRead
+  split
+  · exact ⟨cover, committed, done, phases⟩
+  · split
+    · rename_i hc hd
+      refine ⟨cover, committed, ?_, phases⟩
+      intro hp y hy
+      have hp' : s.phase = 2 := hp
+      simp only [List.mem_cons, not_or]
+      refine ⟨?_, done hp' y hy⟩
+      intro e; subst e
+      have := (committed (by omega)).2 y hy
+      simp at hd; exact this hd
+    · exact ⟨cover, committed, done, phases⟩
+
+theorem inv_stepDel (range : List Nat) (s : St) (h : Inv range s) : Inv range (stepDel true s) := by
+  obtain ⟨cover, committed, done, phases⟩ := h
+  unfold stepDel
+  split
+  · rename_i x rest hp ht
+    refine ⟨?_, ?_, ?_, ?_⟩
+    · intro y; rw [cover y, ht]; simp; constructor
+      · rintro (a | a | a)
+        · exact Or.inl (Or.inr a)
+        · exact Or.inl (Or.inl a)
+        · exact Or.inr a
+      · rintro ((a | a) | a)
+        · exact Or.inr (Or.inl a)
+        · exact Or.inl a
+        · exact Or.inr (Or.inr a)
+    · intro h1; simp [hp] at h1
+    · intro h2; simp [hp] at h2
+    · simp [hp]
+  · rename_i hp ht
+    refine ⟨cover, ?_, ?_, ?_⟩
+    · intro _
+      refine ⟨ht, ?_⟩
+      intro y hy hmem
+      simp at hmem
+      exact hmem.2 hy
+    · intro h2; simp at h2
+    · simp
+  · rename_i hp
+    refine ⟨cover, ?_, ?_, ?_⟩
+    · intro _
+      exact committed (by omega)
+    · intro _ y hy hmem
+      simp at hmem
+      exact hmem.2 hy
+    · simp
+  · exact ⟨cover, committed, done, phases⟩
+
+theorem inv_step (range : List Nat) (s : St) (e : Ev) (h : Inv range s) : Inv range (step true s e) := by
+  cases e with
+  | del => exact inv_stepDel range s h
+  | read x => exact inv_stepRead range s x h
+
+theorem inv_run (stored range : List Nat) (evs : List Ev) : Inv range (run true stored range evs) := by
+  unfold run
+  suffices ∀ s, Inv range s → Inv range (evs.foldl (step true) s) from this _ (inv_init stored range)
+  induction evs with
+  | nil => intro s h; exact h
+  | cons e es ih => intro s h; exact ih _ (inv_step range s e h)
+
+/-- **after DeleteRange has returned, nothing of the range is left** — neither in the datastore nor in a cache — under
+    EVERY interleaving of the deleter's steps with reads of any heights (repaired code) -/
+theorem c08_deleted_is_gone_under_concurrent_reads (stored range : List Nat) (evs : List Ev) (hd : (run true stored range evs).phase = 2) :
+    ∀ h ∈ range, h ∉ (run true stored range evs).ds ∧ h ∉ (run true stored range evs).cache := by
+  intro h hr
+  have I := inv_run stored range evs
+  have hc := I.committed (by omega)
+  have hb : h ∈ (run true stored range evs).batch := by
+    rcases (I.cover h).1 hr with a | a
+    · exact a
+    · rw [hc.1] at a; cases a
+  exact ⟨hc.2 h hb, I.done hd h hb⟩
+
+/-- the code BEFORE the repair: a read of an already processed height while the batch is not committed yet leaves that
+    header in the cache for good (finding F24) -/
+theorem c08_stale_cache_before_repair :
+    let s := run false [1, 2, 3] [1, 2] [.del, .read 1, .del, .del, .del]
+    s.phase = 2 ∧ 1 ∈ s.cache ∧ 1 ∉ s.ds := by decide
+
+example : (run true [1, 2, 3] [1, 2] [.del, .read 1, .del, .del, .del]).cache = [] := by decide
 
 end GoHeader.C08
